@@ -144,6 +144,13 @@ def cases(seed, tier, shard, nshards):
             c = M.build_case(rng, g, part, render_opts={'explicit_single': 0.0})
             if c is None:
                 continue
+            # zero-order (virtual) edges between real nodes: a node that loses its fragment then has a mixed
+            # neighbourhood (some order-0, some real edges) and must still be rejected
+            if len(c['base']) >= 3 and rng.random() < 0.5:
+                for _ in range(rng.randint(1, 3)):
+                    a_, b_ = rng.sample(list(c['base'].nodes), 2)
+                    if not c['base'].has_edge(a_, b_):
+                        c['base'].add_edge(a_, b_, order=0)
             ast, pre = M.base_to_ast(rng, c['base'])
             items = list(c['frags'].items())
             rng.shuffle(items)
@@ -157,7 +164,8 @@ def cases(seed, tier, shard, nshards):
                 if any(d.get('order', 1) >= 1 for _, _, d in c['base'].edges(node, data=True)):
                     a2 = copy.deepcopy(ast)
                     G._flat(a2)[i][0]['name'] = 'NOFRAG'
-                    vs.append(dict(fault='c', pos=position_class(i, len(pre), flat[i][1], False), level='base', api='resolve',
+                    mixed = any(d.get('order', 1) == 0 for _, _, d in c['base'].edges(node, data=True))
+                    vs.append(dict(fault='c', pos=position_class(i, len(pre), flat[i][1], False) + ('_mixed_orders' if mixed else ''), level='base', api='resolve',
                                    string=G.to_string(a2) + '.' + frag()))
             for fi, (name, text) in enumerate(items):
                 late = '_late_fragment' if fi == len(items) - 1 and len(items) > 2 else ''
